@@ -45,7 +45,13 @@ def rand_score(ctx, referenced=False):
         s = gen.rand_score(rng, n_chords=(1, 4), parts=('piano__0', 'violin__0', 'piano__1')[:rng.randint(1, 3)],
                            p_absent=0.25, kinds=kinds, p_rest=0.2, p_cont=0.25, vals=(0, 8), octs=(-1, 1), p_amp=0.4)
         if not referenced or sound.well_referenced(s):
-            return s
+            break
+    if rng.random() < 0.2:        # arbitrary amplitudes 1..127, not only the nine dynamics figures (seed C03-4)
+        for c in s.chords:
+            for m in c.score.values():
+                for n in m.notes:
+                    if n.type not in ('r', 'l') and rng.random() < 0.4:      # a rest / continuation has no amplitude of its own
+                        n.amp = rng.choice([1, 20, 66, 115, 119, 120, 121, 124, 126, 127, rng.randint(1, 127)])
     return s
 
 
@@ -76,11 +82,11 @@ def correspondence(ctx):
         enc = enc_score(s)
         ft = features(s)
         text = str(s)
-        cases.append({'line': sx('notes', enc), 'impl': py_res(lambda: get_notes(s), show_rows), 'input': {'score': text},
+        cases.append({'line': sx('notes', enc), 'impl': py_res(lambda: get_notes(s), show_rows), 'input': {'score': text, 'amps': sound.amps_of(s)},
                       'bucket': ft + [f'chords={len(s.chords)}'], 'nontrivial': bool(ft), 'key': text})
         tempo = ctx.rng.choice(TEMPI)
         cases2.append({'line': sx('events', enc, tempo), 'impl': py_res(lambda: str(sound.impl_events(s, tempo))),
-                       'canon': canon_events(s), 'input': {'score': text, 'tempo': tempo},
+                       'canon': canon_events(s), 'input': {'score': text, 'tempo': tempo, 'amps': sound.amps_of(s)},
                        'bucket': ft + [f'tempo={tempo}'], 'nontrivial': bool(ft), 'key': text + str(tempo)})
     ctx.compare('notes', 'C03', cases)
     ctx.compare('events', 'C03', cases2)
@@ -90,7 +96,7 @@ def correspondence(ctx):
 
 
 def load(inp):
-    return sound.load_score(inp['score'])
+    return sound.load_score(inp['score'], inp.get('amps'))
 
 
 def in_window(s):
@@ -140,10 +146,10 @@ def oracle(ctx):
     todo = list(WITNESSES)
     for st, i in ctx.suspects:
         if i and 'score' in i:
-            todo.append({'score': i['score'], 'tempo': i.get('tempo', 120)})
+            todo.append({'score': i['score'], 'tempo': i.get('tempo', 120), 'amps': i.get('amps')})
     for _ in range(ctx.n(500, 6000)):
         s = rand_score(ctx, referenced=True)
-        todo.append({'score': str(s), 'tempo': ctx.rng.choice(TEMPI)})
+        todo.append({'score': str(s), 'tempo': ctx.rng.choice(TEMPI), 'amps': sound.amps_of(s)})
     for inp in todo:
         try:
             s = load(inp)
